@@ -94,7 +94,7 @@ def entry_of(kind, rng, ids=None):
     if kind == "typeerror":
         return dict(base, method="failtype", id=rid)
     if kind == "unconvertible":
-        return dict(base, method="badresult", id=rid)
+        return dict(base, method=rng.choice(["badresult", "badresult2", "badresult3"]), id=rid)
     raise AssertionError(kind)
 
 
